@@ -567,6 +567,39 @@ func c13Main(r *engine.Run) {
 		mp := geom.NewMultiPolygon([]geom.Polygon{id.Polygon(a), {}}).AsGeometry()
 		c13Check(r, mp, lp(a), "multipolygon with empty", false)
 	}
+	// several members, one of them small and strictly inside the overall envelope but outside the
+	// hull of the others: a big right triangle in each of its 4 orientations (and two of them
+	// together) plus a unit square at every lattice position of an 11×11 grid that keeps it apart
+	// from the triangle; as MultiPolygon (both member orders), MultiLineString of the rings, and a
+	// collection. Also LineStrings that backtrack along themselves (the tip is a hull vertex).
+	nm := 0
+	tris := [][]universe.LPt{{{0, 0}, {10, 0}, {0, 10}, {0, 0}}, {{10, 0}, {10, 10}, {0, 0}, {10, 0}}, {{10, 10}, {0, 10}, {10, 0}, {10, 10}}, {{0, 10}, {0, 0}, {10, 10}, {0, 10}}}
+	for ti, tri := range tris {
+		for x := 0; x <= 9; x++ {
+			for y := 0; y <= 9; y++ {
+				sq := []universe.LPt{{x, y}, {x + 1, y}, {x + 1, y + 1}, {x, y + 1}, {x, y}}
+				mp := geom.NewMultiPolygon([]geom.Polygon{id.Polygon(tri), id.Polygon(sq)})
+				if mp.Validate() != nil {
+					continue
+				}
+				pts := append(lp(tri), lp(sq)...)
+				nm++
+				c13Check(r, mp.AsGeometry(), pts, "triangle and a small square", (x+y+ti)%4 == 0)
+				c13Check(r, geom.NewMultiPolygon([]geom.Polygon{id.Polygon(sq), id.Polygon(tri)}).AsGeometry(), pts, "small square and triangle", false)
+				if (x+y)%3 == 0 {
+					c13Check(r, geom.NewMultiLineString([]geom.LineString{id.Line(tri), id.Line(sq)}).AsGeometry(), pts, "rings as MultiLineString", false)
+					c13Check(r, geom.NewGeometryCollection([]geom.Geometry{id.Polygon(sq).AsGeometry(), id.Point(universe.LPt{X: 5, Y: 5}).AsGeometry(), id.Polygon(tri).AsGeometry()}).AsGeometry(),
+						append(pts, ipt{5, 5}), "collection of both", false)
+				}
+			}
+		}
+	}
+	for _, l := range [][]universe.LPt{{{1, 1}, {7, 3}, {4, 2}, {3, 9}}, {{0, 0}, {6, 0}, {3, 0}, {3, 4}}, {{0, 0}, {4, 4}, {0, 0}, {1, 5}}, {{2, 2}, {2, 8}, {2, 5}, {9, 5}, {5, 5}, {5, 0}}} {
+		c13Check(r, id.Line(l).AsGeometry(), lp(l), "backtracking linestring", true)
+		c13Check(r, geom.NewGeometryCollection([]geom.Geometry{id.Line(l).AsGeometry()}).AsGeometry(), lp(l), "backtracking linestring in a collection", false)
+		nm++
+	}
+	r.Bound(fmt.Sprintf("multi-member carriers: %d (a triangle in 4 orientations with a unit square at every position apart from it, as MultiPolygon in both orders / MultiLineString / collection; backtracking LineStrings)", nm))
 	for _, e := range BuildAlphabet(universe.Identity, 0).Empties {
 		c13Check(r, e.G, nil, "empty", true)
 	}
